@@ -63,13 +63,14 @@ def run(tier):
     if mr.violated:
         raise Machinery('Formats.tla laws violated (specification inconsistent): %s' % mr.violated)
     rejects, stats = validate('traces/RenderTrace.tla', events, 'c08', per_shard=400)
+    demo = rf.render_binding_demo(events, 'c08')
     viols = []
     for (i, clause) in rejects:
         if clause.startswith(PROP + '.'):
             m = metas[i]
             viols.append(Violation(PROP, clause, str(m.get('words'))[:300], m))
     cov = {'tlc_runs': [{'cfg': 'MCFormats', 'distinct': mr.distinct, 'generated': mr.generated, 'wall_s': round(mr.wall, 1)}],
-           'states': stats.states + mr.distinct, 'transitions': stats.transitions + mr.generated, 'traces_validated_against_impl': len(events),
+           'states': stats.states + mr.distinct, 'transitions': stats.transitions + mr.generated, 'binding_demonstration': demo, 'traces_validated_against_impl': len(events),
            'events': {'batches': n, 'trees_read_back': ntrees, 'events': len(events)},
            'samples': [{k: metas[i][k] for k in metas[i] if k in ('lang', 'fmt', 'words', 'text')} for i in (1, len(events) // 2, len(events))],
            'checker_cmd': stats.cmds[0] if stats.cmds else '',
